@@ -2,7 +2,7 @@
 
 S    from an arbitrary invariant state (ABSTRACT; so "the k-th evaluation" is arbitrary) the objective raises on the next
      evaluation (thorough: also on the one after) inside the real Process.Solve, for exception types Exception subclasses with
-     and without arguments, KeyboardInterrupt, SystemExit, GeneratorExit and a user BaseException subclass: Solve returns,
+     and without arguments (incl. the arithmetic ones an objective really raises: ZeroDivisionError, OverflowError), KeyboardInterrupt, SystemExit, GeneratorExit and a user BaseException subclass: Solve returns,
      reported trials = completed evaluations, best = best completed trial with its own value, the record still satisfies
      C06's ordering / fidelity clauses and does not contain the failed point, the failure is printed.
 RUN  scenarios through the public interface (EXACT): fresh solvers failing on evaluation 2 or 3 and reachable prefixes failing
@@ -18,7 +18,8 @@ from symex.core import Explorer  # noqa: E402
 
 PID = 'C16'
 WANT = ('C16',)
-EXCS = ['RuntimeError(msg)', 'ValueError()', 'KeyboardInterrupt()', 'SystemExit(3)', 'GeneratorExit()', 'UserBaseException()', 'AssertionError()']
+EXCS = ['RuntimeError(msg)', 'ValueError()', 'KeyboardInterrupt()', 'ZeroDivisionError(msg)', 'SystemExit(3)', 'GeneratorExit()', 'UserBaseException()',
+        'AssertionError()', 'OverflowError(msg)']
 
 
 def fault_step_job(N, k, recalc, exc, later=0):
@@ -55,7 +56,7 @@ def scenarios(run):
     quick = run.quick
     out = []
     base = {'overrides': ['before', 'iter', 'stop'], 'sibling': 'other'}
-    excs = EXCS if not quick else EXCS[:4]
+    excs = EXCS if not quick else EXCS[:5]
     for i, exc in enumerate(excs):
         for N in (1, 2):
             for fk in (1, 2):
